@@ -239,7 +239,7 @@ PROPS['C04'] = {
                   'stand-in opt-search only. format_type is used through the contract proved in the fmt units. Known finding carved out: Scala writes a '
                   'non-Option member with serde(default) as `T = _` (pinned by a snapshot).',
     'design_ref': 'DESIGN.md section 10.10',
-    'bounded': ['optsearch'],
+    'bounded': ['optsearch', 'cli_extras'],
 }
 for _u in PROPS['C04']['units']:
     PROPS['C07']['units'].append(_u)
@@ -282,7 +282,7 @@ PROPS['C12'] = {
                   'and Scala::unsigned_integer_used\'s collection of the file\'s types (iterator chains) are not proved: bounded stand-in helper-search. '
                   'Assumed: add_import / add_imports record and only add (entry-API stubs); AtomicBool::store modelled as an update (sequential code).',
     'design_ref': 'DESIGN.md section 10.12',
-    'bounded': ['helpersearch'],
+    'bounded': ['helpersearch', 'cli_extras'],
 }
 PROPS['C07']['units'].append('contains')
 PROPS['C08'] = {
@@ -369,14 +369,14 @@ PROPS['C10'] = {
     'bounded': ['cli_wellformed'],
 }
 PROPS['C07']['units'].append('kw')
-PROPS['C03']['bounded'] = ['merge', 'tos']
+PROPS['C03']['bounded'] = ['merge', 'tos', 'cli_extras']
 PROPS['C06']['bounded'] = ['merge', 'cli_determinism']
 PROPS['C11']['bounded'] = ['topo', 'deps']
-PROPS['C13']['bounded'] = ['tos']
+PROPS['C13']['bounded'] = ['tos', 'cli_targetos']
 PROPS['C16']['bounded'] = ['rename']
 PROPS['C17']['bounded'] = ['write', 'cli_runs']
 PROPS['C18']['bounded'] = ['kint']
-PROPS['C20']['bounded'] = ['cfg_all', 'cli_config']
+PROPS['C20']['bounded'] = ['cfg_all', 'cli_config', 'cli_extras']
 PROPS['C07']['bounded'] = ['rename', 'topo', 'cli_robust']
 
 NOT_APPLICABLE = {
@@ -464,7 +464,13 @@ def run_native(exe, args, timeout=120):
     return {'found': False, 'searched': pr.stdout.strip()[-300:]}
 
 
+# a unit that serves several properties: the search for a failing input uses the stand-in of the property being checked, not the unit's own
+# (which looks for violations of the unit's first property) - otherwise a change that breaks property A shows up as a violation of B
+WITNESS_SEARCH = {('write', 'C14'): 'cli_multifile', ('merge', 'C08'): 'cli_unsupported'}
+
+
 def _native_for(name, workdir):
+    name = WITNESS_SEARCH.get((name, os.environ.get('VERIF_PID')), name)
     mod = importlib.import_module(name)
     if hasattr(mod, 'native'):
         return mod.native(workdir)
@@ -505,7 +511,7 @@ def replay(pid, path, work):
         if not exe:
             print('cannot build replay harness: ' + err)
             return 2
-        mod = importlib.import_module(wit['kind'])
+        mod = importlib.import_module(WITNESS_SEARCH.get((wit['kind'], pid), wit['kind']))
         inp = wit['input'].get('input', wit['input'])
         args = mod.replay_args(inp) if hasattr(mod, 'replay_args') else [json.dumps(inp)]
         pr = _run_retry([exe, 'check'] + args, capture_output=True, text=True, timeout=60)
